@@ -221,9 +221,43 @@ def gen_translated_pairs(rng, tier):
                         "damage": how}}
 
 
+def gen_failed_tail(rng, tier):
+    """images without program headers whose section header table runs past the end of the file (e_shnum one
+    or two too large, or the file cut inside the last section header): load() still succeeds, but the
+    stream is left in a failed state, and a lazy object must nevertheless deliver every section's data and
+    name later on (seeded change c15-lazy-load-data-no-clear; the repair f5c108a is what makes this hold)"""
+    n = 24 if tier == "quick" else 240
+    for i in range(n):
+        cls, enc = CFGS[i % 4]
+        img = bytearray(elfspec.encode(elfspec.random_model(rng, cls, enc, nsec=rng.randint(3, 7), nseg=0)))
+        eh = elfspec.unpack(elfspec.EHDR[cls], img, 16, enc)
+        shoff, shnum, shes = eh["e_shoff"], eh["e_shnum"], eh["e_shentsize"]
+        if shnum < 2 or shes == 0:
+            continue
+        end = shoff + shnum * shes
+        numoff = 16 + sum(w for nme, w in elfspec.EHDR[cls][:[nme for nme, _ in elfspec.EHDR[cls]].index("e_shnum")])
+        if end == len(img) and rng.random() < 0.6:
+            img[numoff:numoff + 2] = elfspec.put(shnum + rng.choice([1, 1, 2]), 2, enc); how = "shnum+"
+        else:
+            cut = shoff + (shnum - 1) * shes + rng.randrange(1, shes)
+            if cut >= len(img):
+                continue
+            img = img[:cut]; how = "cut-last-shdr"
+        img = bytes(img)
+        ns, ng = counts(img)
+        obs = observe_lines(img, max_sec=24, max_seg=8)
+        inter = interleaving(rng, ns, ng)
+        kind = rng.choice(["str", "str", "file"])
+        lines = ["obj 0", f"load {hx(img)} lazy=0 kind={kind}"] + obs + \
+                ["obj 1", f"load {hx(img)} lazy=1 kind={kind}"] + inter + obs
+        yield {"id": f"ft{i}", "lines": lines, "meta": {"nobs": len(obs), "ninter": len(inter), "wf": False, "trans": False,
+                                                         "damage": how}}
+
+
 def gen_cases(rng, tier):
     yield from gen_plain(rng, tier)
     yield from gen_translated_pairs(rng, tier)
+    yield from gen_failed_tail(rng, tier)
 
 
 def gen_plain(rng, tier):
